@@ -325,6 +325,16 @@ func init() {
 			return vc.kvLive(st, vc.kvKey(st, args[1]))
 		},
 		"(*" + badgerLib + ".Txn).Delete": func(vc *VC, st *State, c *ssa.CallCommon, args []Value, pos string) Value {
+			// the transaction keeps the key slice until it commits: it must not be one the iterator lent out
+			// (Item.Key is valid only until Next; Item.KeyCopy hands out a copy)
+			if ks, isTerm := vc.term(st, args[1], "key").Sort, true; isTerm && ks != nil {
+				kt := vc.term(st, args[1], "key")
+				for _, cv := range st.strConvs {
+					if cv.borrowed {
+						vc.oblige(st, "kv:keeps-a-key-the-iterator-only-lent@"+vc.site(), Not(Eq(sliceArr(kt), cv.ref)), vc.props, pos)
+					}
+				}
+			}
 			key := vc.kvKey(st, args[1])
 			err := vc.maybeExtError(st, "r_Delete_err")
 			ok := Eq(ifaceTag(err), IntLit(0))
